@@ -30,7 +30,8 @@ Modes  == {"", "query", "fragment", "form_post"}
 \* errCallback (callback of a request the user has not completed), errAuthorize (request error raised after URI validation),
 \* errStorage (the storage refuses to issue for this request when the callback runs: a plain Go error whose text becomes the
 \* error_description, or an *oidc.Error whose description the storage chose - the description is a free string)
-Kinds  == {"code", "tokens", "idtoken", "errCallback", "errAuthorize"}
+\* errCreate (the storage refuses to create the request - prompt=none without a session: login_required; both routers answer with a redirect)
+Kinds  == {"code", "tokens", "idtoken", "errCallback", "errAuthorize", "errCreate"}
 DescStrings == (IF Tier = "quick" THEN Strings(1) \cup {<<x, y>> : x \in {"pct", "plus", "amp"}, y \in Classes} ELSE Strings(2)) \ {<<>>}
 RTypeOf(k, rt) == CASE k = "code" -> "code" [] k = "tokens" -> "id_token token" [] k = "idtoken" -> "id_token" [] OTHER -> rt
 URIShapes == {"plain", "withQuery", "queryPlus", "customScheme", "trailingQ", "queryEncodedAmp"}
